@@ -16,8 +16,6 @@ def tms_fields(o):
     f = {"type": t, "ack": bool(o.header.is_acknowledged), "reserved": bool(o.header.is_reserved) or t == "TEXT",
          "address": list(o.address), "cap": o.availability_header.capability.value if (t == "AVAIL" and o.availability_header) else -1,
          "sn": -1 if sn is None else int(sn), "enc": int(enc), "message": list(o.message) if (t == "TEXT" and o.message is not None) else []}
-    if t == "ACK" and f["sn"] <= 0 and f["enc"] == 0:
-        f["sn"] = -1          # sequence number 0 is 'absent' in an acknowledgement
     if t != "TEXT" and t != "ACK":
         f["sn"], f["enc"] = -1, 0
     return f
@@ -51,7 +49,7 @@ def run(ctx):
                 "header flags x length-value fields {0,1,17,255 octets, UTF-8 multi-byte} x events x refresh times 1..127 x failure reasons x "
                 "CSBK trailer; plus the repository's byte samples. distinct = distinct messages.")
     ctx.assumptions += [
-        "field equality modulo the serialisers' documented normalisations: has_more_headers recomputed, reserved bit forced for text messages, sequence number 0 = absent in an acknowledgement, ARS second header compared on the field the ack bit selects",
+        "field equality modulo the serialisers' documented normalisations: has_more_headers recomputed, reserved bit forced for text messages, ARS second header compared on the field the ack bit selects",
         "implemented ARS PDU types: device / user registration request, status query, device de-registration, device-or-query response",
     ]
     core.setup_repo_path()
